@@ -885,6 +885,19 @@ V('M-native-list-not-cleared', ['C17'], 'C17.clear', ND, "        # an empty lis
 V('M-union-add-widens', ['C14'], 'C14.narrow', CO, "    def __add__(self, value):\n        return ConstraintsIntersection(self, value)\n", "    def __add__(self, value):\n        return self._derive(self._values + (value,))\n")
 
 
+# round 6 of seeded changes (f1..f3)
+V('M-bitslice-unsized', ['C01', 'C02'], 'W.bitslice', UN, "            return self.clone([self[x] for x in range(*i.indices(len(self)))])",
+  "            start, stop, step = i.indices(len(self))\n            if step == 1:\n                width = max(stop - start, 0)\n                bits = (self._value >> (len(self) - start - width)) & ((1 << width) - 1)\n                return self.clone(SizedInteger(bits))\n            return self.clone([self[x] for x in range(start, stop, step)])")
+V('M-bitslice-class', ['C13'], 'W.bitslice', UN, "            return self.clone([self[x] for x in range(*i.indices(len(self)))])", "            return self.__class__([self[x] for x in range(*i.indices(len(self)))])")
+V('M-required-unless-valued', ['C10', 'C09'], 'C10.reqset', NTY,
+  "[idx for idx, nt in enumerate(self.__namedTypes) if not nt.isOptional and not nt.isDefaulted]",
+  "[idx for idx, nt in enumerate(self.__namedTypes) if not (nt.isOptional or nt.isDefaulted or nt.asn1Object.isValue)]")
+V('M-cer-setof-empty-early', ['C14'], 'C14.encall', CE, "        chunks = self._encodeComponents(\n            value, asn1Spec, encodeFun, **options)\n\n        # sort by serialised and padded components",
+  "        if not len(value):\n            return null, True, True\n\n        chunks = self._encodeComponents(\n            value, asn1Spec, encodeFun, **options)\n\n        # sort by serialised and padded components")
+V('M-dynnames-sorted', ['C16'], 'C16.dynorder', UN, "            return (self._idxToKeyMap[idx] for idx in range(len(self._idxToKeyMap)))", "            return iter(sorted(self._keyToIdxMap))")
+V('M-asbinary-zfill', ['C17'], 'W.binstr', UN, "        binString = bin(self._value)[2:].lstrip('0')\n        return '0' * (len(self._value) - len(binString)) + binString", "        return bin(self._value)[2:].zfill(len(self._value))")
+
+
 if __name__ == '__main__':
     from sa import props
     pids = sys.argv[1:] or sorted(props.PROPS)
